@@ -88,6 +88,20 @@ func (db *DB) verifRefused(txid common.Txid, n int) {
 		return
 	}
 	common.VerifEvent(db, "AllocRefused", map[string]any{
-		"txid": uint64(txid), "n": n, "hwm": uint64(db.rwtx.meta.Pgid()), "datasz": db.datasz,
+		"txid": uint64(txid), "n": n, "hwm": uint64(db.rwtx.meta.Pgid()), "datasz": db.datasz, "injected": false,
 	})
+}
+
+// verifSizeCheck lets the tracer refuse an allocation at the end of the file as the
+// MaxSize pre-check would (fault injection: "the k-th size-limit check fails").
+func (db *DB) verifSizeCheck(txid common.Txid, n int) bool {
+	if _, err := common.VerifIO(db, "sizecheck", int64(n), nil); err == nil {
+		return false
+	}
+	if common.VerifTracing() {
+		common.VerifEvent(db, "AllocRefused", map[string]any{
+			"txid": uint64(txid), "n": n, "hwm": uint64(db.rwtx.meta.Pgid()), "datasz": db.datasz, "injected": true,
+		})
+	}
+	return true
 }
